@@ -28,7 +28,7 @@ func propTable() map[string]PropSpec {
 		"data races between the per-shard goroutines of getShardInfos/applyShardsInfo (errgroup closures run synchronously)", "the HTTP/JSON transport between shard.Shard and the sidecar (Shard.APIGet/APIPost are the observation points)"}
 	t["C01"] = PropSpec{
 		ID: "C01", Pkg: coordPkg, NativeDir: "coordinator",
-		Quick:    append([]HarnessRun{H("VGC", 8, 2, 2), H("VRelief", 4, 2, 1), H("VAssign", 4, 2, 2), H("VScaleDown", 4, 2, 1), H("VCycle", 12, 1, 1, 3), H("VCycle", 4, 2, 0, 2), H("VCycle", 6, 2, 1, 32), H("VTransfer", 4), {Entry: "VUpdateTarget", Pkg: "tkestack.io/kvass/pkg/shard", Args: []int{2}, Cosim: 8}}, lemmas...),
+		Quick:    append([]HarnessRun{H("VGC", 8, 2, 2), H("VRelief", 4, 2, 1), H("VAssign", 4, 2, 2), H("VScaleDown", 4, 2, 1), H("VCycle", 12, 1, 1, 3), H("VCycle", 4, 2, 0, 2), H("VCycle", 6, 2, 1, 32), H("VCycle", 4, 2, 1, 24), H("VTransfer", 4), {Entry: "VUpdateTarget", Pkg: "tkestack.io/kvass/pkg/shard", Args: []int{2}, Cosim: 8}}, lemmas...),
 		Thorough: append([]HarnessRun{H("VGC", 8, 2, 2), H("VGC", 8, 3, 1), H("VGC", 8, 3, 2), H("VRelief", 4, 2, 2), H("VRelief", 4, 3, 1), H("VAssign", 4, 2, 2), H("VAssign", 4, 3, 1), H("VScaleDown", 4, 2, 2), H("VScaleDown", 4, 3, 1), H("VCycle", 16, 1, 1, 3), H("VCycle", 8, 1, 2, 0), H("VCycle", 8, 2, 1, 0), H("VCycle", 4, 3, 0, 2), H("VTransfer", 4), {Entry: "VUpdateTarget", Pkg: "tkestack.io/kvass/pkg/shard", Args: []int{3}, Cosim: 8}}, lemmas...),
 		Required: []string{"gc.removed", "gc.rule1", "c01.reported", "c01.removed", "relief.moved", "assign.placed", "cycle.end"},
 		Prefixes: []string{"C01."},
@@ -46,7 +46,7 @@ func propTable() map[string]PropSpec {
 	}
 	t["C05"] = PropSpec{
 		ID: "C05", Pkg: coordPkg, NativeDir: "coordinator",
-		Quick:    []HarnessRun{H("VGC", 8, 2, 1), H("VGC", 8, 2, 2), H("VTransfer", 2), H("VRelief", 4, 2, 1), H("VScaleDown", 4, 2, 1), H("VCycle", 8, 1, 1, 0), H("VCycle", 8, 2, 1, 40)},
+		Quick:    []HarnessRun{H("VGC", 8, 2, 1), H("VGC", 8, 2, 2), H("VTransfer", 2), H("VRelief", 4, 2, 1), H("VScaleDown", 4, 2, 1), H("VCycle", 8, 1, 1, 0), H("VCycle", 8, 2, 1, 40), H("VCycle", 4, 2, 1, 24)},
 		Thorough: []HarnessRun{H("VGC", 8, 2, 2), H("VGC", 8, 3, 1), H("VGC", 8, 3, 2), H("VTransfer", 2), H("VCycle", 8, 2, 1, 8), H("VRelief", 4, 2, 2), H("VRelief", 4, 3, 1), H("VScaleDown", 4, 2, 2), H("VScaleDown", 4, 3, 1), H("VCycle", 8, 2, 1, 0), H("VCycle", 8, 2, 2, 8)},
 		Required: []string{"gc.handover", "gc.removed", "relief.moved", "scaledown.moved", "c05.moved", "c05.handover"},
 		Prefixes: []string{"C05."},
@@ -107,11 +107,11 @@ func propTable() map[string]PropSpec {
 		ID: "C09", Pkg: sidePkg, NativeDir: "sidecar",
 		Quick:    []HarnessRun{{Entry: "VStoreCrash", Args: []int{1}, Cosim: 12}, {Entry: "VTMRestart", Args: []int{1}, Cosim: 6}, {Entry: "VTMRestart", Args: []int{2}, Cosim: 6}},
 		Thorough: []HarnessRun{{Entry: "VStoreCrash", Args: []int{2}, Cosim: 16}, {Entry: "VTMRestart", Args: []int{2}, Cosim: 8}},
-		Required: []string{"fs.write.ok", "fs.write.err.before", "fs.write.err.partial", "fs.kill.before", "fs.kill.partial", "store.old", "store.end", "restart.end", "restart.second.refused"},
+		Required: []string{"fs.write.ok", "fs.write.err.before", "fs.write.err.partial", "fs.kill.before", "fs.kill.partial", "fs.rename", "store.old", "store.end", "restart.end", "restart.second.refused"},
 		Prefixes: []string{"C09."},
-		Bounds:   "two consecutive arbitrary assignments over K<=1 hashes (thorough 2), both states, empty sets; the second update interrupted by each store fault (error before / after a proper prefix, process killed before / part-way); then two consecutive restarts; old-version store file present or not",
+		Bounds:   "two consecutive arbitrary assignments over K<=1 hashes (thorough 2), both states, empty sets; the second update interrupted by each store fault (error before / after a proper prefix, process killed before / part-way / one byte before the end of the document); then two consecutive restarts; old-version store file present or not; the store written through ioutil.WriteFile or through os.OpenFile + Write (+ Sync, Close), followed by os.Rename",
 		Assume:   sideAssume,
-		Outside:  []string{"byte-level JSON fidelity (label values needing escaping, large sets): encoding/json is reflection-driven and is the contract of the abstract store; exercised only by the native co-simulation samples", "the exact byte offset of a partial write: every proper prefix (including the empty file) is one case of the store model", "file-system behaviour other than truncate-then-write (no fsync / rename semantics are modelled because the code uses none)"},
+		Outside:  []string{"byte-level JSON fidelity (label values needing escaping, large sets): encoding/json is reflection-driven and is the contract of the abstract store; exercised only by the native co-simulation samples", "the exact byte offset of a partial write: every proper prefix (including the empty file) is one case of the store model", "document lengths are symbolic: a document with more targets is longer (by more than a byte) than one with fewer, documents with equally many targets are unrelated; without O_TRUNC the tail of a longer old file survives behind a shorter new document", "fsync / power-loss semantics (a completed write is durable), directory entries, permissions"},
 	}
 	t["C13"] = PropSpec{
 		ID: "C13", Pkg: sidePkg, LoadPkgs: []string{scrapePkg}, NativeDir: "sidecar",
@@ -183,24 +183,24 @@ func propTable() map[string]PropSpec {
 	}
 	t["C19"] = PropSpec{
 		ID: "C19", Pkg: coordPkg, NativeDir: "coordinator",
-		Quick:    []HarnessRun{H("VTwoReplicas", 8, 1, 1, 16, 40)},
-		Thorough: []HarnessRun{H("VTwoReplicas", 8, 1, 1, 16, 8), H("VTwoReplicas", 8, 2, 1, 16, 8), H("VTwoReplicas", 8, 1, 1, 16, 0), H("VTwoReplicas", 8, 1, 1, 0, 8)},
-		Required: []string{"tworep.ran", "tworep.posted", "tworep.end"},
+		Quick:    []HarnessRun{H("VTwoReplicas", 8, 1, 1, 16, 40), H("VTwoReplicasCycles", 4, 80)},
+		Thorough: []HarnessRun{H("VTwoReplicas", 8, 1, 1, 16, 8), H("VTwoReplicas", 8, 2, 1, 16, 8), H("VTwoReplicas", 8, 1, 1, 16, 0), H("VTwoReplicas", 8, 1, 1, 0, 8), H("VTwoReplicasCycles", 4, 80), H("VTwoReplicasCycles", 4, 16)},
+		Required: []string{"tworep.ran", "tworep.posted", "tworep.end", "tworep.cycles.second.posted", "tworep.cycles.end"},
 		Prefixes: []string{"C19."},
-		Bounds:   "self-composition of runOnce: a cycle over replicas [A, B] against a cycle over [B] alone with equal-valued reports and an equal explorer state, K = 1 target, B one in-sync shard (thorough: any kind), A one shard (thorough two) of any kind, with concrete loads (thorough: symbolic), or failing to list shards / to scale (early and final request); clock frozen so that both cycles see the same instant",
+		Bounds:   "self-composition of runOnce: a cycle over replicas [A, B] against a cycle over [B] alone with equal-valued reports and an equal explorer state, K = 1 target, B one in-sync shard (thorough: any kind), A one shard (thorough two) of any kind, with concrete loads (thorough: symbolic), or failing to list shards / to scale (early and final request); clock frozen so that both cycles see the same instant; across cycles: two consecutive cycles of one coordinator and one explorer over [A, B] against [A] alone, A one in-sync shard reporting no targets in either cycle (what it was sent is lost), B one in-sync shard scraping the same target, the explorer holding a healthy estimate with symbolic counts, concrete shard loads, relief and scale-down off (thorough: symbolic options) - what A is sent and A's scale requests must agree in both cycles",
 		Assume:   append([]string{"the explorer hands out the same status object per hash within a cycle; the comparison cycle starts from an equal copy of the explorer's state before the cycle"}, wfAssumptions...),
-		Outside:  append([]string{"K > 1 (B's outcome would depend on iteration order)", "influence of one replica on another across cycles through objects the explorer hands out (mergeScrapeStatus writes into them after all replicas were processed) - see DESIGN.md"}, cycleOutside...),
+		Outside:  append([]string{"K > 1 (B's outcome would depend on iteration order)", "influence across more than two cycles, or through B being processed before A (B's own report objects are private copies)"}, cycleOutside...),
 	}
 	explPkg := "tkestack.io/kvass/pkg/explore"
 	t["C20"] = PropSpec{
 		ID: "C20", Pkg: explPkg, LoadPkgs: []string{coordPkg}, NativeDir: "explore",
-		Quick:    []HarnessRun{{Entry: "VExploreKernel", Args: []int{1}, Cosim: 6}, {Entry: "VExploreKernel", Args: []int{2}, Cosim: 6}, {Entry: "VCycleExplore", Pkg: coordPkg, Subst: swr, Cosim: 2}, {Entry: "VExploreTable", Args: []int{2}, Cosim: 4}},
-		Thorough: []HarnessRun{{Entry: "VExploreKernel", Args: []int{1}, Cosim: 8}, {Entry: "VExploreKernel", Args: []int{2}, Cosim: 8}, {Entry: "VCycleExplore", Pkg: coordPkg, Subst: swr, Cosim: 2}, {Entry: "VExploreTable", Args: []int{3}, Cosim: 4}},
-		Required: []string{"explore.ok", "explore.failed", "explore.end", "explorecycle.ok", "explorecycle.failed"},
+		Quick:    []HarnessRun{{Entry: "VExploreKernel", Args: []int{1}, Cosim: 6}, {Entry: "VExploreKernel", Args: []int{2}, Cosim: 6}, {Entry: "VCycleExplore", Pkg: coordPkg, Subst: swr, Cosim: 2}, {Entry: "VExploreTable", Args: []int{2}, Cosim: 4}, {Entry: "VExploreRun", Args: []int{1, 1, 1, 2}, Unwind: 40}, {Entry: "VExploreRun", Args: []int{2, 1, 1, 1}, Unwind: 40}},
+		Thorough: []HarnessRun{{Entry: "VExploreRun", Args: []int{1, 1, 2, 2}, Unwind: 60}, {Entry: "VExploreRun", Args: []int{2, 1, 1, 2}, Unwind: 60}, {Entry: "VExploreRun", Args: []int{1, 2, 1, 2}, Unwind: 60}, {Entry: "VExploreRun", Args: []int{2, 2, 1, 1}, Unwind: 60}, {Entry: "VExploreKernel", Args: []int{1}, Cosim: 8}, {Entry: "VExploreKernel", Args: []int{2}, Cosim: 8}, {Entry: "VCycleExplore", Pkg: coordPkg, Subst: swr, Cosim: 2}, {Entry: "VExploreTable", Args: []int{3}, Cosim: 4}},
+		Required: []string{"explore.ok", "explore.failed", "explore.end", "explorecycle.ok", "explorecycle.failed", "run.retry", "run.act.update.same", "run.act.update.less", "run.act.reload.keep", "run.end"},
 		Prefixes: []string{"C20."},
-		Bounds:   "sequential kernel: Get / exploreOnce / UpdateTargets on a table of <= 2 targets with a scripted probe (success with symbolic counts < 2^30, failure, unknown job); estimate through the real UpdateScrapeResult in floating-point theory; the first-assignment clause on the observable: two real coordination cycles (one in-sync shard with room, one target) around one scripted probe with the real Explore.Get as the coordinator's estimate source",
-		Assume:   []string{"the probe function (Explore.explore) is a scripted closure; logging and metrics are no-ops; the needExplore channel is a bounded FIFO"},
-		Outside:  []string{"the retry loop, the at-most-one-probe-in-flight clause and every interleaving with discovery updates (Explore.Run spawns goroutines; no thread model was built)", "real timing of the retry interval"},
+		Bounds:   "sequential kernel: Get / exploreOnce / UpdateTargets on a table of <= 2 targets with a scripted probe (success with symbolic counts < 2^30, failure, unknown job); estimate through the real UpdateScrapeResult in floating-point theory; the first-assignment clause on the observable: two real coordination cycles (one in-sync shard with room, one target) around one scripted probe with the real Explore.Get as the coordinator's estimate source; bounded thread model: the real Explore.Run with W <= 1 probe workers (thorough 2), its retry goroutines and a driver goroutine (K <= 2 targets looked up, then one of: nothing, the same targets discovered again, target 1 removed, a reload keeping the job) under every schedule with context switches at synchronisation operations and <= 2 preemptions (quick K=2: 1), at most F = 1 failing probes (thorough 2), a probe that yields in the middle, time.Sleep advancing a symbolic clock by at least its argument; checked at quiescence: every asked-for target still discovered has the estimate of its successful probe, no probe after success, one probe in flight per target, a retry not before the retry interval, queue drained, Run returns on cancel",
+		Assume:   []string{"the probe function (Explore.explore) is a scripted closure; logging and metrics are no-ops; the needExplore channel is a bounded FIFO", "thread model: goroutines interleave only at mutex acquisitions, channel operations, select, errgroup.Wait, time.Sleep and goroutine exit - complete for data-race-free code (the accesses of exploreOnce to the entry it probes are outside targetsLock and are treated as atomic with the surrounding step); schedule decisions are forks of the symbolic executor, counterexamples are confirmed by concrete re-execution of the SSA under the recorded schedule (a native run cannot be steered through a schedule)"},
+		Outside:  []string{"more than 2 preemptions, more than 2 workers / targets / failing probes, more than one concurrent driver action", "weak-memory effects and data races (the model is sequentially consistent at synchronisation granularity)", "real timing of the retry interval (the clock is symbolic)"},
 	}
 	discPkg := "tkestack.io/kvass/pkg/discovery"
 	discSubst := map[string]string{
@@ -210,13 +210,13 @@ func propTable() map[string]PropSpec {
 	}
 	t["C17"] = PropSpec{
 		ID: "C17", Pkg: discPkg, LoadPkgs: []string{explPkg}, NativeDir: "discovery",
-		Quick:    []HarnessRun{{Entry: "VDisc", Args: []int{1, 1}, Subst: discSubst, Cosim: 12}, {Entry: "VExploreTable", Pkg: explPkg, Args: []int{2}, Cosim: 8}},
-		Thorough: []HarnessRun{{Entry: "VDisc", Args: []int{1, 1}, Subst: discSubst, Cosim: 16}, {Entry: "VDisc", Args: []int{2, 1}, Subst: discSubst, Cosim: 8}, {Entry: "VExploreTable", Pkg: explPkg, Args: []int{3}, Cosim: 8}},
-		Required: []string{"disc.update", "disc.reload", "disc.job.updated", "disc.job.untouched", "disc.reload.kept", "disc.reload.removed", "explore.update", "explore.reload", "explore.survivor"},
+		Quick:    []HarnessRun{{Entry: "VDisc", Args: []int{1, 1}, Subst: discSubst, Cosim: 12}, {Entry: "VExploreTable", Pkg: explPkg, Args: []int{2}, Cosim: 8}, {Entry: "VDiscRun", Args: []int{0, 2}, Subst: discSubst, Unwind: 40}, {Entry: "VDiscRun", Args: []int{1, 1}, Subst: discSubst, Unwind: 40}},
+		Thorough: []HarnessRun{{Entry: "VDiscRun", Args: []int{0, 3}, Subst: discSubst, Unwind: 40}, {Entry: "VDiscRun", Args: []int{1, 2}, Subst: discSubst, Unwind: 40}, {Entry: "VDisc", Args: []int{1, 1}, Subst: discSubst, Cosim: 16}, {Entry: "VExploreTable", Pkg: explPkg, Args: []int{3}, Cosim: 8}},
+		Required: []string{"disc.update", "disc.reload", "disc.job.updated", "disc.job.untouched", "disc.reload.kept", "disc.reload.removed", "explore.update", "explore.reload", "explore.survivor", "discrun.end"},
 		Prefixes: []string{"C17."},
-		Bounds:   "sequential histories: configuration with 2 jobs, a first (full or partial) discovery round, then one step - an update mentioning any subset of a known and an unknown job, or a reload that keeps / removes each job and adds one, followed by an update for a removed and the added job; 1 group (thorough 2) of <= 1 target per job and round, each target active or dropped; snapshot isolation of ActiveTargets / DropTargets / ActiveTargetsByHash across the step; explorer table over <= 2 (3) hashes",
-		Assume:   []string{"targetsFromGroup is replaced by a summary returning one entry per discovered address (active unless labelled drop=1); scrape.Target label accessors are summarised accordingly (its own behaviour is C15 / C02 territory); natively the real functions run on groups built to give the same outcome", "sync.Mutex Lock/Unlock are tracked (a lock taken twice, or an unlock without lock, ends the path as an error); logging is a no-op"},
-		Outside:  []string{"interleavings of readers and writers: no thread model was built, so the unlocked read of the configuration in translateTargets racing with ApplyConfig, and atomicity under concurrency, are not decided (sequential histories only)", "more than one step after the first round; more than 2 jobs"},
+		Bounds:   "sequential histories: configuration with 2 jobs, a first (full or partial) discovery round, then one step - an update mentioning any subset of a known and an unknown job, or a reload that keeps / removes each job and adds one, followed by an update for a removed and the added job; 1 group (thorough 2) of <= 1 target per job and round, each target active or dropped; snapshot isolation of ActiveTargets / DropTargets / ActiveTargetsByHash across the step; explorer table over <= 2 (3) hashes; bounded thread model: the real TargetsDiscovery.Run loop consuming one discovery round for a kept job from its channel, the driver reloading the configuration (removing or keeping the other job) and a reader goroutine taking two snapshots (ActiveTargets, ActiveTargetsByHash), under every schedule with context switches at synchronisation operations and <= 2 preemptions (thorough 3): the kept job is never missing from a snapshot, the latest update wins, the removed job is gone, subscribers are notified once, Run returns on cancel",
+		Assume:   []string{"thread model: goroutines interleave only at mutex acquisitions, channel operations, select and goroutine exit - complete for data-race-free code; the unlocked read of m.config in translateTargets is treated as atomic with the step it belongs to; schedule decisions are forks of the symbolic executor, counterexamples are confirmed by concrete re-execution of the SSA under the recorded schedule", "targetsFromGroup is replaced by a summary returning one entry per discovered address (active unless labelled drop=1); scrape.Target label accessors are summarised accordingly (its own behaviour is C15 / C02 territory); natively the real functions run on groups built to give the same outcome", "sync.Mutex Lock/Unlock are tracked (a lock taken twice, or an unlock without lock, ends the path as an error); logging is a no-op"},
+		Outside:  []string{"the data race itself between the unlocked read of the configuration map in translateTargets and ApplyConfig (the model switches threads at synchronisation operations only)", "more than 3 preemptions, more than one concurrent update and one reload, more than one reader", "more than one step after the first round in the sequential harness; more than 2 jobs"},
 	}
 	hashSubst := map[string]string{"github.com/prometheus/prometheus/model/relabel.Process": discPkg + ".vNoRelabel"}
 	t["C15"] = PropSpec{
